@@ -106,7 +106,10 @@ def scenario(rng, kind):
                 s.advance(rng.choice([0, 0, 0.05, 0.13, 0.5, 2.0]))
             # let every call finish (worst case R x (T + P))
             c = consts()
-            limit = (c["R"] * (c["T"] + c["P"]) / 1000.0 + 5) * n_calls
+            # every call completes: the explicit calls queue behind each other AND behind the background callers
+            # (ping, refresh, facade update: up to R x (T + P) each when their replies are lost too), so the
+            # wait is generous - virtual time is cheap; the per-call duration bound is the trace specification's
+            limit = (c["R"] * (c["T"] + c["P"]) / 1000.0 + 5) * (n_calls + 12)
             t0 = s.loop.time()
             while any(not t.done() for t in sc.tasks) and s.loop.time() - t0 < limit:
                 s.advance(0.5)
